@@ -1789,15 +1789,19 @@ def verifyexit(repo):
             if i > 0 and re.search(r"\berrors\.(append|extend)\(", ast.unparse(blk[i - 1])):
                 continue
             t = par.test if isinstance(par, ast.If) and blk is par.body else None
-            absent = False
-            if t is not None:
-                if isinstance(t, ast.UnaryOp) and isinstance(t.op, ast.Not) and isinstance(t.operand, ast.Name) \
-                        and t.operand.id in attr_locals:
-                    absent = True
-                if isinstance(t, ast.Compare) and isinstance(t.left, ast.Name) and t.left.id in attr_locals \
-                        and len(t.ops) == 1 and isinstance(t.ops[0], ast.Is) and isinstance(t.comparators[0], ast.Constant) \
-                        and t.comparators[0].value is None:
-                    absent = True
+            def is_absent(t_):
+                if isinstance(t_, ast.UnaryOp) and isinstance(t_.op, ast.Not) and isinstance(t_.operand, ast.Name) \
+                        and t_.operand.id in attr_locals:
+                    return True
+                if isinstance(t_, ast.Compare) and isinstance(t_.left, ast.Name) and t_.left.id in attr_locals \
+                        and len(t_.ops) == 1 and isinstance(t_.ops[0], ast.Is) and isinstance(t_.comparators[0], ast.Constant) \
+                        and t_.comparators[0].value is None:
+                    return True
+                if isinstance(t_, ast.BoolOp):  # any combination of absence tests is still "no attribute to verify"
+                    return all(is_absent(v_) for v_ in t_.values)
+                return False
+
+            absent = t is not None and is_absent(t)
             if absent:
                 if len(res.samples) < 3:
                     res.samples.append(f"{f.name}:{r.lineno}: absent-attribute guard")
@@ -1809,6 +1813,112 @@ def verifyexit(repo):
     if nfuncs < 5:
         raise AnalysisError(f"attribute_checker: only {nfuncs} verifier functions found")
     res.analysed = [m.rel]
+    return res
+
+
+_ZEROFALSY_CTL = '''
+from compiler.util import ir_util
+def check(type_definition, errors):
+    declared = ir_util.get_integer_attribute(type_definition.attribute, "fixed_size_in_bits")
+    if not declared:
+        return
+    errors.append(declared)
+'''
+
+_INT_OR_NONE = ("get_integer_attribute", "constant_value", "fixed_size_of_type_in_bits", "_fixed_size_of_struct_or_bits")
+
+
+def zerofalsy(repo, modules=None):
+    """R-ZEROFALSY (C14): the helpers that answer "the integer, or None when there is none" (get_integer_attribute,
+    constant_value, the fixed-size helpers) can answer 0, which is false.  A local bound to one of them is compared with
+    None (or used in arithmetic / comparisons), never tested for truth: `if not declared_size: return` treats an explicit
+    `[fixed_size_in_bits: 0]`, a zero-length array or a constant 0 as absent and skips the verification."""
+    res = RuleResult("R-ZEROFALSY")
+    mods = modules if modules is not None else [m for m in repo.modules.values()
+                                                if m.rel.startswith("compiler/") and not m.rel.endswith("_test.py")]
+    for m in mods:
+        for f in m.funcs.values():
+            ints = {}
+            for n in walk_no_nested_funcs(f.node):
+                if isinstance(n, ast.Assign) and isinstance(n.value, ast.Call) and len(n.targets) == 1 \
+                        and isinstance(n.targets[0], ast.Name) and (call_name(n.value) or "").split(".")[-1] in _INT_OR_NONE:
+                    ints[n.targets[0].id] = (call_name(n.value) or "").split(".")[-1]
+            if not ints:
+                continue
+            res.instances += len(ints)
+            for n in walk_no_nested_funcs(f.node):
+                tests = []
+                if isinstance(n, (ast.If, ast.IfExp, ast.While)):
+                    tests = [n.test]
+                elif isinstance(n, ast.BoolOp):
+                    tests = list(n.values)
+                elif isinstance(n, ast.Assert):
+                    tests = [n.test]
+                for t in tests:
+                    x = t.operand if isinstance(t, ast.UnaryOp) and isinstance(t.op, ast.Not) else t
+                    if isinstance(x, ast.Name) and x.id in ints:
+                        res.add(f"{m.rel}|{f.qualname}|{x.id}", f"{f.qualname} tests `{ast.unparse(t)}` for truth; `{x.id}` comes from "
+                                f"{ints[x.id]}(), which answers 0 for a declared/constant zero and None for \"absent\": the zero case "
+                                "takes the absent branch (an explicit `[fixed_size_in_bits: 0]` on a non-empty structure is never "
+                                "compared with the real size)", m.rel, n.lineno, f.qualname)
+    return res
+
+
+def control_zerofalsy(repo):
+    r2 = Repo(repo.root, overlay={"compiler/front_end/zz_verif_control.py": _ZEROFALSY_CTL})
+    g = zerofalsy(r2, [r2.mod("compiler/front_end/zz_verif_control.py")])
+    return len(g.findings) == 1
+
+
+def presentarg(repo):
+    """R-PRESENTARG (C13/C16): agreement between a back-end precondition and the front-end check that establishes it.
+    expression_bounds reads `.existence_condition` of the object `$present`'s argument refers to, so that object must
+    be a Field.  In type_check, the function that reports "... must be a field" accepts (returns without an error) only
+    under `which_expression == "field_reference"` and one isinstance test of the object found for `path[-1]`
+    (`not isinstance(x, RuntimeParameter)` or `isinstance(x, Field)`), with no disjunct that lets other objects through."""
+    res = RuleResult("R-PRESENTARG")
+    eb = repo.mod("compiler/front_end/expression_bounds.py")
+    needs = [f for f in eb.top_funcs() if "existence" in f.name and ".existence_condition" in eb.seg(f.node)]
+    res.instances += 1
+    if not needs:
+        res.samples.append("expression_bounds no longer dereferences existence_condition of $present's argument: rule is moot")
+        return res
+    tc = repo.mod("compiler/front_end/type_check.py")
+    checkers = [f for f in tc.top_funcs() if any(isinstance(n, ast.Constant) and isinstance(n.value, str) and "must be a field" in n.value
+                                                 for n in ast.walk(f.node))]
+    if len(checkers) != 1:
+        raise AnalysisError(f"type_check: {len(checkers)} functions report 'must be a field'")
+    f = checkers[0]
+    rets = [n for n in walk_no_nested_funcs(f.node) if isinstance(n, ast.Return)]
+    if not rets:
+        raise AnalysisError(f"{f.name}: no accepting return found")
+    for r in rets:
+        res.instances += 1
+        conds = []
+        cur = r
+        while cur is not f.node:
+            par = tc.parent(cur)
+            if isinstance(par, ast.If):
+                conds.append((par.test, cur in par.body))
+            cur = par
+        kind_ok = any(pos and "which_expression" in ast.unparse(t) and "field_reference" in ast.unparse(t) for t, pos in conds)
+        inst = [t for t, pos in conds if pos and "isinstance" in ast.unparse(t)]
+        good = False
+        if len(inst) == 1:
+            t = inst[0]
+            if isinstance(t, ast.UnaryOp) and isinstance(t.op, ast.Not) and isinstance(t.operand, ast.Call) \
+                    and call_name(t.operand) == "isinstance" and "RuntimeParameter" in ast.unparse(t.operand.args[1]):
+                good = True
+            if isinstance(t, ast.Call) and call_name(t) == "isinstance" and ast.unparse(t.args[1]).endswith("Field"):
+                good = True
+        if not (kind_ok and good):
+            shown = " and ".join(ast.unparse(t)[:70] for t, _ in conds) or "(no condition)"
+            res.add(f"{tc.rel}|{f.name}|accept", f"{f.name} accepts the argument under `{shown}`; {needs[0].name} in expression_bounds "
+                    "dereferences `.existence_condition` of the referenced object, so acceptance must imply that the object is a "
+                    "Field (a runtime parameter let through raises AttributeError there)", tc.rel, r.lineno, f.name)
+        else:
+            res.samples.append(f"{f.name}:{r.lineno}: accepted only for references to fields")
+    res.analysed = [tc.rel, eb.rel]
     return res
 
 
